@@ -1,18 +1,17 @@
 SPECIFICATION Spec
 CONSTANTS
-  NAMES = {"n1"}
+  NAMES = {"n1", "n2"}
   PEERS = {"p1", "p2"}
   Thr = 1
   CheckMode = "once"
   ForgetMode = "name"
   RenewMode = "restart"
-  W = 2
+  W = 3
   AccN = 6
-  MaxArr = 4
-  MaxT = 2
-  REPS = {1}
-  Staged = FALSE
-  PsFree = FALSE
+  MaxArr = 6
+  MaxT = 3
+  REPS = {1, 2}
+  Staged = TRUE
+  PsFree = TRUE
   InitSets = {{"p1"}, {"p1", "p2"}}
-VIEW View
 INVARIANTS InvAtMostOne InvIsLatest InvValidUnexpiredMember InvNoFalseAlarm InvAlertOnce InvReported InvForgotten InvObserverSane
